@@ -52,6 +52,15 @@ func mod(x, n int) int {
 	return x
 }
 
+// noSplit moves an index that falls between the two halves of a surrogate pair
+// past the pair.
+func noSplit(us []uint16, p int) int {
+	if p > 0 && p < len(us) && us[p-1] >= 0xD800 && us[p-1] <= 0xDBFF && us[p] >= 0xDC00 && us[p] <= 0xDFFF {
+		return p + 1
+	}
+	return p
+}
+
 func utf16Len(s string) int { return len(utf16.Encode([]rune(s))) }
 
 // Resolved is what actually got executed.
@@ -267,9 +276,13 @@ func ApplyOp(d *document.Document, op Op, valBase int, fail string) (res Resolve
 				skip = true
 				return nil
 			}
-			n := utf16Len(t.String())
+			us := utf16.Encode([]rune(t.String()))
+			n := len(us)
 			from := mod(op.A, n+1)
 			to := from + mod(op.B, n-from+1)
+			// an index inside a surrogate pair is outside the API's domain
+			// (a Go string cannot hold the resulting lone surrogate)
+			from, to = noSplit(us, from), noSplit(us, to)
 			s := textTokens[mod(op.V, len(textTokens))]
 			if s == "" && from == to {
 				skip = true
@@ -277,15 +290,22 @@ func ApplyOp(d *document.Document, op Op, valBase int, fail string) (res Resolve
 			}
 			t.Edit(from, to, s)
 			res.Args["from"], res.Args["to"], res.Args["s"] = from, to, s
+			res.Args["units"] = units(s)
 		case "txt.style":
 			t := r.GetText(KText)
 			if t == nil || utf16Len(t.String()) == 0 {
 				skip = true
 				return nil
 			}
-			n := utf16Len(t.String())
+			us := utf16.Encode([]rune(t.String()))
+			n := len(us)
 			from := mod(op.A, n)
 			to := from + 1 + mod(op.B, n-from)
+			from, to = noSplit(us, from), noSplit(us, to)
+			if from >= to {
+				skip = true
+				return nil
+			}
 			v := fmt.Sprintf("%d", mod(op.V, 3))
 			t.Style(from, to, map[string]string{"b": v})
 			res.Args["from"], res.Args["to"], res.Args["val"] = from, to, v
@@ -296,6 +316,14 @@ func ApplyOp(d *document.Document, op Op, valBase int, fail string) (res Resolve
 				return nil
 			}
 			v := mod(op.V, 7) + 1
+			switch op.V {
+			case 100:
+				v = 2147483647
+			case 101:
+				v = -2147483647
+			case 102:
+				v = -3
+			}
 			c.Increase(v)
 			res.Args["val"] = v
 		case "pres.set":
@@ -378,6 +406,7 @@ func applyTreeOp(r *json.Object, op Op, valBase int, res *Resolved, skip *bool) 
 				s := string(rune('A' + mod(valBase, 26)))
 				t.EditByPath([]int{pi, off}, []int{pi, off}, &json.TreeNode{Type: "text", Value: s}, 0)
 				res.Args["path"], res.Args["s"], res.Args["mode"] = []int{pi, off}, s, "instext"
+				res.Args["units"] = units(s)
 			} else {
 				if plen == 0 {
 					*skip = true
@@ -391,6 +420,7 @@ func applyTreeOp(r *json.Object, op Op, valBase int, res *Resolved, skip *bool) 
 					s := string(rune('a' + mod(valBase, 26)))
 					t.EditByPath([]int{pi, off}, []int{pi, off + 1}, &json.TreeNode{Type: "text", Value: s}, 0)
 					res.Args["path"], res.Args["s"], res.Args["mode"] = []int{pi, off}, s, "reptext"
+					res.Args["units"] = units(s)
 				}
 			}
 		case 2:
@@ -398,6 +428,7 @@ func applyTreeOp(r *json.Object, op Op, valBase int, res *Resolved, skip *bool) 
 			s := string(rune('A' + mod(valBase, 26)))
 			t.EditByPath([]int{pi}, []int{pi}, &json.TreeNode{Type: "p", Children: []json.TreeNode{{Type: "text", Value: s}}}, 0)
 			res.Args["path"], res.Args["s"], res.Args["mode"] = []int{pi}, s, "inselem"
+			res.Args["units"] = units(s)
 		case 3:
 			if np == 0 {
 				*skip = true
